@@ -328,3 +328,22 @@ def inherited_component_metadata():
     if got != want:
         return {"confirmed": True, "input": {"source": src}, "actual": got, "expected": want, "how": "real pipeline (Project.correlate): metadata and documentation of the components of a type and of its extension"}
     return None
+
+
+def metadata_block_cases():
+    """leading metadata lines set the entity's metadata; the metadata ends where the first line stands that is not a `key: value` line of a *metadata key* (or the continuation of
+    one): a text line that merely looks like one (`Note: ...`, `Warning: ...`) and everything after it is documentation and is rendered"""
+    src = ("module m\n  !! author: Bob\n  !! Note: notew1 notew2\n  !! version: versionw1\n  !!\n  !! bodyw1 bodyw2\n  integer :: x\n    !! deprecated: true\n    !! Warning: warnw1\n    !! tailw1\n"
+           "  integer :: y\n    !! Todo: todow1 todow2\n    !!\n    !! yw1\n  integer :: z\n    !! version: 7\n    !!     contw1\n    !! zw1\nend module m\n")
+    proj = realrun.build_project({"src/m.f90": src}, display=["public", "private", "protected"])
+    mdm = loader.import_repo("ford._markdown")
+    proj.markdown(mdm.MetaMarkdown(aliases={}, project=proj))
+    m = proj.modules[0]
+    v = {e.name: e for e in m.variables}
+    words = lambda e: [w for w in re.findall(r"[A-Za-z]\w*", html.unescape(re.sub(r"<[^>]+>", " ", str(e.doc)))) if re.fullmatch(r"[a-z]+w\d", w)]
+    got = {"m": (str(m.meta.author), words(m)), "x": (bool(v["x"].meta.deprecated), words(v["x"])), "y": words(v["y"]), "z": (str(v["z"].meta.version).split(), words(v["z"]))}
+    want = {"m": ("Bob", ["notew1", "notew2", "versionw1", "bodyw1", "bodyw2"]), "x": (True, ["warnw1", "tailw1"]), "y": ["todow1", "todow2", "yw1"], "z": (["7", "contw1"], ["zw1"])}
+    if got != want:
+        return {"confirmed": True, "input": {"source": src}, "actual": got, "expected": want,
+                "how": "real pipeline + Project.markdown: metadata values and the tracer words of the rendered documentation, in order"}
+    return None
